@@ -307,7 +307,13 @@ theorem presAll_succ (hC : PresCtx cx p S T) (ih : PresAll cx p S T fuel) : Pres
       · cases h; exact one e hw _ _ (by assumption)
       · exact one e hw _ _ h
     | call f args => exact pres_call hC ih hK hw h
-    | wideRatio ns ds => simp only [wtR] at hw; cases hw
+    | wideRatio ns ds =>
+      simp only [wtR, Bool.and_eq_true] at hw
+      have hwa : wtRArgs K (ns ++ ds) = true := by rw [wtRArgs_append, hw.1.1.2, hw.1.2]; rfl
+      rw [eval_wideRatio] at h
+      split at h
+      · cases h; exact ih.args cur (ns ++ ds) w [] _ _ K hK hwa (by assumption)
+      · exact ih.args cur (ns ++ ds) w [] r w' K hK hwa h
     | substring a b c =>
       simp only [wtR, Bool.and_eq_true] at hw
       simp only [eval] at h
